@@ -115,6 +115,9 @@ fn show_eval_err(e: &EvalError) -> String {
         EvalError::InvalidArgumentCount(_) => "err:InvalidArgumentCount".to_string(),
         EvalError::NotFoundFunction(_) => "err:NotFoundFunction".to_string(),
         EvalError::NotFoundNamespace(_) => "err:NotFoundNamespace".to_string(),
+        // variants added later (e.g. NotFoundVariable) cannot arise from the calls made here
+        #[allow(unreachable_patterns)]
+        _ => "err:Other".to_string(),
     }
 }
 
